@@ -4,7 +4,7 @@ from typing import Any, cast
 from guppylang_internals.definition.ty import TypeDef
 from guppylang_internals.tys.arg import TypeArg
 from guppylang_internals.tys.common import Visitor
-from guppylang_internals.tys.ty import OpaqueType, Type
+from guppylang_internals.tys.ty import OpaqueType, StructType, Type
 
 
 @functools.cache
@@ -43,6 +43,12 @@ class QubitFinder(Visitor):
     def _visit_OpaqueType(self, ty: OpaqueType) -> bool:
         if is_qubit_ty(ty):
             raise self.FoundFlag
+        return False
+
+    @visit.register
+    def _visit_StructType(self, ty: StructType) -> bool:
+        for f in ty.fields:
+            f.ty.visit(self)
         return False
 
     @visit.register
